@@ -219,9 +219,94 @@ def arg_of(kind, n, rng, TYPES):
     w = {'i8': 8, 'i16': 16, 'i32': 32, 'i64': 64, 'isize': 64, 'u8': 8, 'u16': 16, 'u32': 32, 'u64': 64, 'usize': 64}[kind]
     return int_bits(w, rng)
 
+
+def float_boundaries(n, kind, rng, nties):
+    """from_f32 / from_f64 into an n-bit posit: every (or `nties` sampled) rounding boundary of the TARGET expressed as a float:
+    the tie, its float neighbours, and the tie with one extra mantissa bit set / cleared at every position; both signs"""
+    import struct, sys, os
+    sys.path.insert(0, os.path.join(os.path.dirname(os.path.dirname(os.path.abspath(__file__))), 'tools'))
+    from pyspec import to_rat
+    es = _ES[n]
+    pts = list(range(1 << (n - 1))) if n <= 8 else sorted(set(interesting_posits(n, rng, nties)) | set(range(0, 8)) | set(range((1 << (n - 1)) - 8, 1 << (n - 1))))
+    mb, w = (52, 64) if kind == 'f64' else (23, 32)
+    for p in pts:
+        p &= (1 << (n - 1)) - 1
+        v = to_rat(n + 1, es, ((p << 1) | 1) & ((1 << (n + 1)) - 1))
+        if v is None or v <= 0: continue
+        try:
+            x = float(v)
+            if kind == 'f64': b = struct.unpack('<Q', struct.pack('<d', x))[0]
+            else: b = struct.unpack('<I', struct.pack('<f', x))[0]
+        except OverflowError:
+            continue
+        S = 1 << (w - 1)
+        for d in (0, 1, -1):
+            yield ((b + d) & (S - 1),); yield (((b + d) & (S - 1)) | S,)
+        for j in range(mb):
+            for q in (b | (1 << j), b + (1 << j), b - (1 << j)):
+                if 0 < q < S:
+                    yield (q,); yield (q | S,)
+
+def target_boundaries(n, op, rng):
+    """conversions out of a wide posit: rounding boundaries of the *target* format expressed as source patterns"""
+    # conversions out of a wide posit: every kind of rounding boundary of the *target* format expressed as source patterns
+    import sys, os, re as _re
+    sys.path.insert(0, os.path.join(os.path.dirname(os.path.dirname(os.path.abspath(__file__))), 'tools'))
+    from pyspec import rnd
+    from fractions import Fraction as Fr
+    M = (1 << n) - 1
+    lo = op.lower()
+    if 'f32' in lo:
+        # midpoints between adjacent f32 values (23-bit mantissa m, scale e) where the source still has > 24 significant bits,
+        # with mantissas chosen to make the round-up carry ripple (all ones, trailing ones) — and their neighbours
+        for e in range(-20, 21):
+            ms = [0, 1, (1 << 23) - 1, (1 << 23) - 2, (1 << 22), (1 << 22) - 1, 0x555555, 0x2aaaaa] + [rng.getrandbits(23) for _ in range(6)] \
+                 + [((1 << 23) - 1) ^ ((1 << rng.randrange(23)) - 1) for _ in range(4)] + [(1 << rng.randrange(1, 23)) - 1 for _ in range(4)]
+            for m in ms:
+                v = (Fr(1) + Fr(2 * m + 1, 1 << 24)) * (Fr(2) ** e)
+                p = rnd(n, _ES[n], v)
+                for sgn in (1, -1):
+                    for d in (0, 1, -1, 2, -2, 7, -7, 8, -8):
+                        yield ((sgn * (p + d)) & M,)
+    mi = _re.search(r'to_([iu])(8|16|32|64|size)|^([iu])(8|16|32|64|size)::from', lo)
+    if mi or 'round' in lo or 'ceil' in lo or 'floor' in lo or 'trunc' in lo:
+        ks = list(range(0, 20)) + [(1 << j) + d for j in range(4, 66) for d in (-2, -1, 0, 1)] + [rng.getrandbits(rng.randrange(5, 30)) for _ in range(200)]
+        for k in ks:
+            for fr in (Fr(1, 2), Fr(0), Fr(1, 4), Fr(3, 4)):
+                p = rnd(n, _ES[n], Fr(k) + fr)
+                for sgn in (1, -1):
+                    for d in (0, 1, -1):
+                        yield ((sgn * (p + d)) & M,)
+
 def cases_for(ty, n, args, count, rng, TYPES, exhaustive_limit=1 << 16, op=''):
     """yield argument tuples for an op with the given arg kinds"""
     args = list(args)
+    if len(args) == 1 and (args[0] in TYPES or args[0] == 'P') and op:
+        # narrowing conversions: every rounding boundary of the target format, expressed in the source format
+        # (an (m+1)-bit posit pattern left-aligned in the source) and its neighbours
+        src = TYPES[args[0]]['n'] if args[0] in TYPES else n
+        import re as _re
+        mt = _re.search(r'p(8|16|32)', op) if ('to_p' in op or 'from_p' in op or '_to_px' in op or '_from_px' in op) else None
+        tgt = int(mt.group(1)) if mt else None
+        if args[0] == 'P' and mt and 'from_p' in op: tgt = None
+        if args[0] in TYPES and ('from_' in op): tgt = n
+        if tgt and tgt < src:
+            import sys, os
+            sys.path.insert(0, os.path.join(os.path.dirname(os.path.dirname(os.path.abspath(__file__))), 'tools'))
+            from pyspec import to_rat, rnd
+            es_s, es_t = _ES[src], _ES[tgt]
+            pts = interesting_posits(tgt, rng, 700) if tgt > 8 else list(range(1 << tgt))
+            for p in pts:
+                v = to_rat(tgt + 1, es_t, ((p << 1) | 1) & ((1 << (tgt + 1)) - 1))     # the tie between p and its successor
+                if v is None: continue
+                mid = rnd(src, es_s, v)
+                for d in (0, 1, -1):
+                    yield ((mid + d) & ((1 << src) - 1),)
+                # the tie plus / minus ONE bit at every lower position (a sticky mask that misses a position), both signs
+                for j in range(1, src - 1):
+                    for q in (mid + (1 << j), mid - (1 << j)):
+                        if 0 < q < (1 << (src - 1)):
+                            yield (q,); yield ((-q) & ((1 << src) - 1),)
     if all(k == 'P' for k in args):
         if n ** 0 and (1 << (n * len(args))) <= exhaustive_limit:
             N = 1 << n
@@ -232,6 +317,8 @@ def cases_for(ty, n, args, count, rng, TYPES, exhaustive_limit=1 << 16, op=''):
                     for b in range(N): yield (a, b)
             return
         if len(args) == 1:
+            if n > 16 and op:
+                for t in target_boundaries(n, op, rng): yield t
             for a in interesting_posits(n, rng, count): yield (a,)
             return
         if len(args) == 2:
@@ -260,27 +347,6 @@ def cases_for(ty, n, args, count, rng, TYPES, exhaustive_limit=1 << 16, op=''):
             while k < count:
                 yield triple(n, rng); k += 1
             return
-    if len(args) == 1 and (args[0] in TYPES or args[0] == 'P') and op:
-        # narrowing conversions: every rounding boundary of the target format, expressed in the source format
-        # (an (m+1)-bit posit pattern left-aligned in the source) and its neighbours
-        src = TYPES[args[0]]['n'] if args[0] in TYPES else n
-        import re as _re
-        mt = _re.search(r'p(8|16|32)', op) if ('to_p' in op or 'from_p' in op or '_to_px' in op or '_from_px' in op) else None
-        tgt = int(mt.group(1)) if mt else None
-        if args[0] == 'P' and mt and 'from_p' in op: tgt = None
-        if args[0] in TYPES and ('from_' in op): tgt = n
-        if tgt and tgt < src:
-            import sys, os
-            sys.path.insert(0, os.path.join(os.path.dirname(os.path.dirname(os.path.abspath(__file__))), 'tools'))
-            from pyspec import to_rat, rnd
-            es_s, es_t = _ES[src], _ES[tgt]
-            pts = interesting_posits(tgt, rng, 700) if tgt > 8 else list(range(1 << tgt))
-            for p in pts:
-                v = to_rat(tgt + 1, es_t, ((p << 1) | 1) & ((1 << (tgt + 1)) - 1))     # the tie between p and its successor
-                if v is None: continue
-                mid = rnd(src, es_s, v)
-                for d in (0, 1, -1):
-                    yield ((mid + d) & ((1 << src) - 1),)
     if len(args) == 1 and args[0] in TYPES:
         w = TYPES[args[0]]['n']
         if (1 << w) <= exhaustive_limit:
@@ -292,5 +358,7 @@ def cases_for(ty, n, args, count, rng, TYPES, exhaustive_limit=1 << 16, op=''):
         w = 8 if args[0] in ('i8', 'u8') else 16
         for a in range(1 << w): yield (a,)
         return
+    if len(args) == 1 and args[0] in ('f64', 'f32') and n in _ES:
+        for t in float_boundaries(n, args[0], rng, 120): yield t
     for _ in range(count):
         yield tuple(arg_of(k, n, rng, TYPES) for k in args)
